@@ -399,6 +399,39 @@ def rand_nested(rng, tier, codon=False):
     return dict(kind="nested", seqs=seqs, tree=tree, null=null, alt=alt, null_opt=null_opt, alt_opt=alt_opt, cls=cls)
 
 
+def rand_nested_const(rng):
+    """nulls that hold a rate term CONSTANT (everywhere, on some edges, at its fitted value, mixed with free terms);
+    alternates of the same kind and non-stationary ones"""
+    n = rng.choice([3, 4, 4, 5])
+    tree = rng.choice(TREES[n])
+    edges = edge_names(tree)
+    seqs = rand_nuc_aln(rng, n, rng.choice([60, 120]))
+    null_sm = rng.choice(["HKY85", "TN93", "GTR", "GTR"])
+    alt_sm = rng.choice({"HKY85": ["GTR", "GN", "TN93", "HKY85+scope"], "TN93": ["GTR", "GN"], "GTR": ["GN", "GN", "GTR+scope"]}[null_sm])
+    pars = RATE_PARAMS[null_sm]
+    chosen = rng.sample(pars, rng.randint(1, max(1, len(pars) - 1)) if len(pars) > 1 else 1)
+    rules, post = [], []
+    for p in chosen:
+        u = rng.random()
+        val = round(rng.uniform(0.3, 6.0), 3)
+        if u < 0.4:
+            rules.append(dict(par_name=p, is_constant=True, value=val))
+        elif u < 0.75:
+            rules.append(dict(par_name=p, edges=sorted(rng.sample(edges, rng.randint(1, len(edges) - 1))), is_constant=True, value=val))
+        else:
+            post.append(dict(par_name=p, is_constant=True))   # constant at the fitted value
+    alt = dict(sm=alt_sm.split("+")[0])
+    if alt_sm.endswith("+scope"):
+        alt["rules"] = [dict(par_name=p, is_independent=True) for p in pars]
+    c = dict(kind="nested", seqs=seqs, tree=tree, null=dict(sm=null_sm, rules=rules), alt=alt,
+             null_opt=dict(max_evaluations=rng.choice([20, 60]), limit_action="ignore", local=True),
+             alt_opt=dict(max_evaluations=rng.choice([3, 10]), limit_action="ignore", local=True),
+             cls="const-nonstationary" if alt["sm"] == "GN" else "const")
+    if post:
+        c["null_post"] = post
+    return c
+
+
 def corpus_nested():
     """fixed witnesses seen during construction (always run first)"""
     rng = random.Random(3)
@@ -417,6 +450,14 @@ def corpus_nested():
              cls="matrix"),
         dict(kind="nested", seqs=seqs, tree="((a,b),c,d)", null=dict(sm="GTR"), alt=dict(sm="GN"), null_opt=opt, alt_opt=aopt,
              cls="matrix-nonstationary"),
+        # a CONSTANT rate term in the null, projected onto a non-stationary alternate (everywhere / on some edges)
+        dict(kind="nested", seqs=seqs, tree="((a,b),c,d)", null=dict(sm="GTR", rules=[dict(par_name="A/G", is_constant=True, value=2.0)]),
+             alt=dict(sm="GN"), null_opt=opt, alt_opt=aopt, cls="const-nonstationary"),
+        dict(kind="nested", seqs=seqs, tree="((a,b),c,d)",
+             null=dict(sm="GTR", rules=[dict(par_name="A/G", edges=es, is_constant=True, value=2.0)]),
+             alt=dict(sm="GN"), null_opt=opt, alt_opt=aopt, cls="const-nonstationary"),
+        dict(kind="nested", seqs=seqs, tree="((a,b),c,d)", null=dict(sm="HKY85", rules=[dict(par_name="kappa", is_constant=True, value=3.0)]),
+             alt=dict(sm="GTR"), null_opt=opt, alt_opt=aopt, cls="const"),
         # rich = simple + an extra predicate inside existing ones (H04GGK's G.K lies inside G and kappa)
         dict(kind="nested", seqs=rand_codon_aln(random.Random(11), 3, 25), tree="(a,b,c)", null=dict(sm="H04G"), alt=dict(sm="H04GGK"),
              null_opt=dict(max_evaluations=60, limit_action="ignore", local=True),
@@ -553,6 +594,107 @@ def rand_lfopt(rng):
         opt["max_evaluations"] = None
         opt["tolerance"] = 1e-2
     return dict(kind="lfopt", seqs=seqs, tree=tree, model=model, start_seed=rng.randint(0, 10 ** 6), opt=opt)
+
+
+def lfbounds_case(rng, seqs, tree, sm, par, max_evaluations=80):
+    """bounds declared on one or two scopes of a parameter, then a rule that splits scopes WITHOUT restating bounds"""
+    edges = edge_names(tree)
+    steps = []
+    regions = [sorted(rng.sample(edges, rng.randint(1, len(edges) - 1)))]
+    if rng.random() < 0.4:
+        rest = [e for e in edges if e not in regions[0]]
+        if len(rest) > 1:
+            regions.append(sorted(rng.sample(rest, rng.randint(1, len(rest) - 1))))
+    for reg in regions:
+        if rng.random() < 0.7:
+            lo, hi = rng.choice([0.05, 0.2, 0.5]), rng.choice([1.05, 1.3, 2.0])
+        else:
+            lo, hi = rng.choice([3.0, 6.0]), rng.choice([8.0, 20.0])
+        st = dict(par_name=par, edges=reg, lower=lo, upper=hi, init=round(rng.uniform(lo, hi), 3))
+        if rng.random() < 0.5:
+            st["is_independent"] = rng.random() < 0.5
+        steps.append(st)
+    u = rng.random()
+    if u < 0.45:
+        steps.append(dict(par_name=par, is_independent=True))
+    elif u < 0.75:
+        steps.append(dict(par_name=par, edges=sorted(rng.sample(edges, rng.randint(2, len(edges)))), is_independent=True))
+    elif u < 0.9:
+        steps.append(dict(op="time_het", edge_sets=[dict(edges=sorted(rng.sample(edges, rng.randint(2, len(edges) - 1))), is_independent=True)]))
+    else:
+        steps.append(dict(op="time_het", is_independent=True))
+    return dict(kind="lfbounds", seqs=seqs, tree=tree, sm=sm, pars=[par], steps=steps,
+                opt=dict(local=True, max_evaluations=max_evaluations, limit_action="ignore"))
+
+
+def rand_lfbounds(rng):
+    n = rng.choice([3, 4, 4, 5])
+    tree = rng.choice(TREES[n])
+    sm = rng.choice(["HKY85", "HKY85", "GTR", "TN93"])
+    return lfbounds_case(rng, rand_nuc_aln(rng, n, rng.choice([60, 120])), tree, sm, rng.choice(RATE_PARAMS[sm]),
+                         max_evaluations=rng.choice([40, 80, 150]))
+
+
+def corpus_lfbounds():
+    rng = random.Random(4)
+    seqs = rand_nuc_aln(rng, 4, 120)
+    base = dict(kind="lfbounds", seqs=seqs, tree="((a,b),c,d)", sm="HKY85", pars=["kappa"],
+                opt=dict(local=True, max_evaluations=150, limit_action="ignore"))
+    return [
+        dict(base, steps=[dict(par_name="kappa", edges=["a", "b"], upper=1.2, lower=0.5, init=1.0), dict(par_name="kappa", is_independent=True)]),
+        dict(base, steps=[dict(par_name="kappa", edges=["a"], upper=1.05, lower=0.2, init=1.0),
+                          dict(op="time_het", edge_sets=[dict(edges=["a", "c", "d"], is_independent=True)])]),
+        dict(base, steps=[dict(par_name="kappa", edges=["c", "d"], upper=20.0, lower=6.0, init=7.0),
+                          dict(par_name="kappa", edges=["b", "c", "d"], is_independent=True)]),
+    ]
+
+
+def declared_bounds(c, r):
+    """the bounds DECLARED for every (parameter, edge) cell: model defaults, then every rule that states a bound, the
+    last statement covering the cell wins; rules that only re-scope a parameter change nothing"""
+    edges = r["edges"]
+    out = {}
+    for par in c["pars"]:
+        lo0, hi0 = r["defaults"][par]
+        cell = {e: [lo0, hi0] for e in edges}
+        for st in c["steps"]:
+            if st.get("op") == "time_het" or st.get("par_name") != par:
+                continue
+            for e in (st.get("edges") or edges):
+                if st.get("lower") is not None:
+                    cell[e][0] = st["lower"]
+                if st.get("upper") is not None:
+                    cell[e][1] = st["upper"]
+        out[par] = cell
+    return out
+
+
+def oracle_lfbounds(c, r):
+    if "values" not in r:
+        return [("lfbounds:raised", r.get("tb", "")[-300:])]
+    bad = []
+    decl = declared_bounds(c, r)
+    for par, byedge in r["values"].items():
+        for e, v in byedge.items():
+            lo, hi = decl[par][e]
+            tol = 1e-9 * max(1.0, abs(hi))
+            if not (lo - tol <= v <= hi + tol):
+                bad.append(("lfbounds:optimised-value-outside-declared-bounds",
+                            f"{par}[{e}] = {v} but the bounds declared for that cell are [{lo}, {hi}]"))
+                break
+    if not bad:
+        for par, byedge in r.get("held", {}).items():
+            for e, (lo, hi) in byedge.items():
+                dlo, dhi = decl[par][e]
+                if abs(lo - dlo) > 1e-12 * max(1.0, abs(dlo)) or abs(hi - dhi) > 1e-12 * max(1.0, abs(dhi)):
+                    bad.append(("lfbounds:held-bounds-differ-from-declared",
+                                f"{par}[{e}]: the function holds [{lo}, {hi}] but [{dlo}, {dhi}] was declared for that cell"))
+                    break
+            if bad:
+                break
+    if not (r["after"] >= r["before"] - MONO_TOL):
+        bad.append(("lfbounds:lost-likelihood", f"lnL {r['before']} -> {r['after']}"))
+    return bad
 
 
 EQ_TOL = 1e-6      # lnL(alt initialised) vs lnL(null)
@@ -1022,13 +1164,16 @@ def rand_pmapns(rng):
         rich[0][1] = sorted(set(rich[0][1]) | {rich[1][1][0]})   # overlapping parameters
     rich.append(["ref_cell", sorted(refc)])
     return dict(kind="pmapns", rich=[[n, [list(c) for c in cs]] for n, cs in rich],
-                simple=[[n, [list(c) for c in cs]] for n, cs in simple], pi=rand_fracs(rng, dim), vals=rand_fracs(rng, 4))
+                simple=[[n, [list(c) for c in cs]] for n, cs in simple], pi=rand_fracs(rng, dim), vals=rand_fracs(rng, 4),
+                const=[rng.random() < 0.4 for _ in range(3)])
 
 
 def coq_pmapns(c, r):
     pis = "[" + ";".join(f"({n},{d})" for n, d in c["pi"]) + "]"
     vals = c["vals"]
-    rules = "[" + ";".join(f"({zs(n)},{vals[i % len(vals)][0]},{vals[i % len(vals)][1]})" for i, n in enumerate(r["rule_names"])) + "]"
+    consts = c.get("const") or [False]
+    rules = "[" + ";".join(f"({zs(n)},{vals[i % len(vals)][0]},{vals[i % len(vals)][1]},{'true' if consts[i % len(consts)] else 'false'})"
+                           for i, n in enumerate(r["rule_names"])) + "]"
     return (f"({'true' if VARIANT['exact_rule'] else 'false'}, {pis}, {coq_coords(r['rich_iter'])}, "
             f"{coq_coords(r['simple_iter'])}, {rules})")
 
@@ -1072,7 +1217,7 @@ def compare_pmapns(rep, cases, outs, proof_broken, disagreements, nontrivial):
     vals = None
     try:
         vals = core.coq_eval(PROP, ["Model.Nested", "Model.NestedNS", "Spec.NestedNSSpec", "Model.NestedNSRun"], "run_nscase",
-                             [coq_pmapns(c, r) for c, r in ok], "bool * list (Z * Z) * coords * coords * list (name * Z * Z)",
+                             [coq_pmapns(c, r) for c, r in ok], "bool * list (Z * Z) * coords * coords * list (name * Z * Z * bool)",
                              shard=300, tag="ns")
     except core.CheckError as e:
         if not proof_broken:
@@ -1094,7 +1239,7 @@ def compare_pmapns(rep, cases, outs, proof_broken, disagreements, nontrivial):
         if isinstance(r["proj"], dict) or not isinstance(mv[0], list):
             same = isinstance(r["proj"], dict) and not isinstance(mv[0], list)
         else:
-            mproj = sorted([n, Fraction(q[0], q[1])] for n, e, q in mv[0] if n != "length")
+            mproj = sorted([n, Fraction(q[0], q[1])] for n, e, q in mv[0] if n != "length" and q is not None)
             iproj = r["proj"]
             same = len(mproj) == len(iproj) and all(a[0] == b[0] and abs(float(a[1]) - b[1]) <= 1e-12 * max(1.0, abs(b[1]))
                                                     for a, b in zip(mproj, iproj))
@@ -1109,8 +1254,8 @@ def compare_pmapns(rep, cases, outs, proof_broken, disagreements, nontrivial):
 
 def tier_sizes(tier):
     if tier == "quick":
-        return dict(wrap=1500, real=60, nested=26, nested_codon=2, hyp=6, hyp_opts=16, lfopt=16, pmap=300, scoped=400, pmapns=300)
-    return dict(wrap=20000, real=1500, nested=700, nested_codon=40, hyp=160, hyp_opts=400, lfopt=500, pmap=4000, scoped=5000, pmapns=4000)
+        return dict(wrap=1500, real=60, nested=26, nested_codon=2, hyp=6, hyp_opts=16, lfopt=16, lfbounds=14, nested_const=8, pmap=300, scoped=400, pmapns=300)
+    return dict(wrap=20000, real=1500, nested=700, nested_codon=40, hyp=160, hyp_opts=400, lfopt=500, lfbounds=400, nested_const=250, pmap=4000, scoped=5000, pmapns=4000)
 
 
 def run(tier: str, seed: int) -> int:
@@ -1150,11 +1295,13 @@ def run(tier: str, seed: int) -> int:
     pmap_cases = [dict(kind="pmap", models=list(p)) for p in PMAP_PAIRS + (PMAP_CODON if tier != "quick" else PMAP_CODON_QUICK)]
     pmap_cases += [rand_pmap(rng) for _ in range(sz["pmap"])]
     scoped_cases = [rand_scoped(rng) for _ in range(sz["scoped"])]
-    pmapns_cases = [dict(kind="pmapns", models=list(p), pi=rand_fracs(rng, 4), vals=rand_fracs(rng, 5)) for p in PMAPNS_PAIRS
-                    for _ in range(3)]
+    pmapns_cases = [dict(kind="pmapns", models=list(p), pi=rand_fracs(rng, 4), vals=rand_fracs(rng, 5),
+                         const=[rng.random() < 0.5 for _ in range(5)]) for p in PMAPNS_PAIRS for _ in range(3)]
     pmapns_cases += [rand_pmapns(rng) for _ in range(sz["pmapns"])]
     light = wrap_cases + real_cases + pmap_cases + scoped_cases + pmapns_cases
-    heavy = corpus_nested() + corpus_hyp() + corpus_hyp_opts()
+    heavy = corpus_nested() + corpus_hyp() + corpus_hyp_opts() + corpus_lfbounds()
+    heavy += [rand_nested_const(rng) for _ in range(sz["nested_const"])]
+    heavy += [rand_lfbounds(rng) for _ in range(sz["lfbounds"])]
     heavy += [rand_nested(rng, tier) for _ in range(sz["nested"])]
     heavy += [rand_nested(rng, tier, codon=True) for _ in range(sz["nested_codon"])]
     heavy += [rand_hyp(rng) for _ in range(sz["hyp"])]
@@ -1175,7 +1322,7 @@ def run(tier: str, seed: int) -> int:
     pmapns_out = light_out[nw + nr + npm + nsc:]
 
     disagreements = []
-    counts = dict(wrap=0, real=0, pmap=0, scoped=0, pmapns=0, nested=0, hyp=0, lfopt=0)
+    counts = dict(wrap=0, real=0, pmap=0, scoped=0, pmapns=0, nested=0, hyp=0, lfopt=0, lfbounds=0)
     nontrivial = set()
     dist = dict(wrap_endings={}, wrap_local={}, nested_classes={}, hyp_classes={}, hyp_pairs={}, nested_pairs={}, lfopt_modes={})
 
@@ -1256,6 +1403,14 @@ def run(tier: str, seed: int) -> int:
             bad = oracle_hyp(c, r)
             if not bad:
                 nontrivial.add(json.dumps(["hyp", c["null"], c["alts"], r.get("lnL")]))
+        elif k == "lfbounds":
+            bad = oracle_lfbounds(c, r)
+            if not bad:
+                decl = declared_bounds(c, r)
+                at = sum(1 for par, be in r["values"].items() for e, v in be.items()
+                         if min(v - decl[par][e][0], decl[par][e][1] - v) <= 1e-6 * max(1.0, abs(v)))
+                dist["lfbounds_values_at_a_declared_bound"] = dist.get("lfbounds_values_at_a_declared_bound", 0) + at
+                nontrivial.add(json.dumps(["lfbounds", c["sm"], c["steps"], r["after"]]))
         else:
             m = f"{loc(c['opt'])}:{c['opt']['limit_action']}"
             dist["lfopt_modes"][m] = dist["lfopt_modes"].get(m, 0) + 1
@@ -1330,6 +1485,9 @@ def run(tier: str, seed: int) -> int:
             "stationary -> non-stationary projection: projection_exact_not_same covers rich parameters whose cells share one "
             "target state (GN); ssGN (two target states per parameter, exact only for equal motif probabilities) is compared "
             "numerically only",
+            "per-scope bounds: the bound table of one parameter under re-scoping rules is modelled and proved (Model/ScopeBounds.v); "
+            "rules that merge cells with different declared bounds into one tied scope (the code takes the envelope) are not generated; "
+            "constant settings and the transform to optimiser space are not modelled",
             "theorems for the nested initialisation are stated for both transcribed variants of the source (pinned / with proposed "
             "fixes); the two *_refuted theorems show the pinned variant violating totality / exactness on nested inputs",
         ],
@@ -1364,6 +1522,9 @@ def replay(path: str) -> int:
         print("impl  :", r)
     elif k == "lfopt":
         bad = oracle_lfopt(c, r)
+        print("impl  :", r)
+    elif k == "lfbounds":
+        bad = oracle_lfbounds(c, r)
         print("impl  :", r)
     else:
         probe = core.run_impl_lines(IMPL, [dict(kind="probe")])[0]
